@@ -24,6 +24,9 @@ CONFIG_SETS = {
 }
 
 
+DIRECTED_KINDS = ("generator:protocol", "class:deep-defaults", "uninit:del-rebind")
+
+
 def _kind_of(ev: list[Any]) -> str:
     return ev[0] + (":" + ev[1] if ev[0] in ("exc", "setup-exc", "post-exc", "close-exc") else "")
 
@@ -79,6 +82,9 @@ def classify(unit: dict[str, Any], call: dict[str, Any], ref: list[list[Any]], g
                 tags = f":only the compiled run calls '{ys[j]}'"
             else:
                 tags += " where interpreted has '" + (str(xs[j]) if j < len(xs) else "<nothing>")[:30] + "'"
+    if kind in DIRECTED_KINDS:
+        # directed units have a fixed, small call list: the call is part of the mechanism
+        tags += ":" + re.sub(r"\bu\d+", "U", str(call.get("call")))
     return f"{what}:{kind}{tags}", f"{what} differs: interpreted {str(a)[:200]} vs compiled {str(b)[:200]}"
 
 
